@@ -2,6 +2,10 @@
 // builder put on the wire, captured with raw sockets.
 //   P <code> <cap> <server hex|-> <location hex|-> <cookies n=v,n=v hex|-> <body hex>
 //   T <code> <chunk hex>,<chunk hex>,...          (empty list: '-')
+//   U <code> <max response size> <item,...>   streamed response built with every way of putting data into a ResponseStream:
+//        w<hex> write, e write of 0 bytes, l<hex> << const char*, i<n> << int, u<n> << uint64_t, c<hex> << char,
+//        b0|b1 << bool, a<hex> << char[16] holding a shorter text, f flush
+//     -> U [threw] <captured bytes hex, header lines sorted>
 //   Q <method idx> <path hex> <query k=v,.. hex|-> <cookies n=v,.. hex|-> <body hex>
 // Output (head = status/request line first, the other header lines sorted):
 //   P emitted <bytes hex> size=<getResponseSize>  | P rejected received=<bytes received>
@@ -15,6 +19,8 @@
 #include <thread>
 
 #include "pv_net.h"
+#include <cstring>
+
 #include "pv_util.h"
 
 using namespace Pistache;
@@ -70,6 +76,8 @@ struct Plan
     bool hasServer = false, hasLocation = false;
     std::vector<std::pair<std::string, std::string>> cookies;
     std::vector<std::string> chunks;
+    std::vector<std::string> items; // mode U: typed stream operations
+    int threw = 0;
     std::atomic<int> outcome { 0 }; // 1 fulfilled, 2 rejected
     std::atomic<long> size { -1 };
     std::string seen;
@@ -116,6 +124,55 @@ public:
             auto pr  = response.send(static_cast<Http::Code>(p.code), p.body);
             p.size   = response.getResponseSize();
             pr.then([rp](ssize_t) { rp->outcome = 1; }, [rp](std::exception_ptr) { rp->outcome = 2; });
+        }
+        else if (p.mode == "U")
+        {
+            // every way of putting data into a response stream
+            try
+            {
+                auto stream = response.stream(static_cast<Http::Code>(p.code));
+                for (auto& it : p.items)
+                {
+                    std::string arg = it.size() > 1 ? it.substr(1) : std::string();
+                    switch (it[0])
+                    {
+                    case 'w':
+                    {
+                        std::string d = pv::unhex(arg);
+                        stream.write(d.data(), static_cast<std::streamsize>(d.size()));
+                        break;
+                    }
+                    case 'e': stream.write("", 0); break;
+                    case 'l':
+                    {
+                        std::string d = pv::unhex(arg);
+                        const char* cs = d.c_str();
+                        stream << cs;
+                        break;
+                    }
+                    case 'i': stream << atoi(arg.c_str()); break;
+                    case 'u': stream << static_cast<uint64_t>(strtoull(arg.c_str(), nullptr, 10)); break;
+                    case 'c': stream << pv::unhex(arg)[0]; break;
+                    case 'b': stream << (arg == "1"); break;
+                    case 'a':
+                    {
+                        char buf[16] = { 0 };
+                        std::string d = pv::unhex(arg);
+                        memcpy(buf, d.data(), std::min<size_t>(d.size(), 15));
+                        stream << buf;
+                        break;
+                    }
+                    case 'f': stream.flush(); break;
+                    default: break;
+                    }
+                }
+                stream.ends();
+            }
+            catch (const std::exception&)
+            {
+                p.threw = 1;
+            }
+            p.outcome = 1;
         }
         else
         {
@@ -170,6 +227,23 @@ static std::string handle(const std::string& line)
                 else
                     cur.push_back(c);
             }
+        }
+    }
+    else if (t[0] == "U" && t.size() == 4)
+    {
+        plan.code = atoi(t[1].c_str());
+        cap       = static_cast<size_t>(atoll(t[2].c_str()));
+        std::string cur;
+        for (char c : t[3] + ",")
+        {
+            if (c == ',')
+            {
+                if (!cur.empty())
+                    plan.items.push_back(cur);
+                cur.clear();
+            }
+            else
+                cur.push_back(c);
         }
     }
     else if (!(t[0] == "Q" && t.size() == 6))
@@ -276,7 +350,9 @@ static std::string handle(const std::string& line)
         else
         {
             pv::read_until(c, got, [](const std::string& b) { return b.size() >= 5 && b.compare(b.size() - 5, 5, "0\r\n\r\n") == 0; }, 3000);
-            result = "T " + pv::hex(canon(got));
+            if (t[0] == "U") // anything after the first terminator belongs to the picture
+                pv::read_until(c, got, [](const std::string&) { return false; }, 150);
+            result = (t[0] == "U" ? std::string("U ") + (plan.threw ? "threw " : "") : std::string("T ")) + pv::hex(canon(got));
         }
         ::close(c);
     }
